@@ -1,4 +1,5 @@
 import CanvasProofs.Lemmas.C20Witness
+import CanvasProofs.Lemmas.C20Pool
 import CanvasGen.FactsC20
 /-! # C20 — concurrent use on independent objects is race-free and deterministic
 Split (DESIGN §4 C20): a happens-before model with the lockset theorem for all interleavings, a
@@ -110,15 +111,56 @@ example : ({ qname := "p.n", pkg := "p", name := "n", typ := "int", pos := "", n
 
 /-! ## Font-level state -/
 
-/-- **a loaded font carries no mutable cache**: no struct type reachable from canvas.Font,
-canvas.FontFace or text.Shaper (inside the analysed packages) has a container field (map, sync.Map,
-sync.Pool, chan) that is mutated after construction — today there is no container field at all.
-A memo table added to the shaper or the font changes this fact. -/
+/-- **a loaded font carries no mutable cache of canvas's own**: no struct type of canvas, canvas/text
+or the renderers that is reachable from canvas.Font, canvas.FontFace or text.Shaper has a container
+field (map, sync.Map, sync.Pool, chan) — so none is mutated after construction. A memo table added to
+the shaper or the font changes this fact. -/
 theorem font_level_state_immutable :
-    (∀ f, f ∈ fontLevelFields → f.writes = []) ∧
-    (fontLevelFields.filter (·.container)).map (·.name) = [] ∧
-    (∀ r, r ∈ fontRoots → r ∈ fontLevelTypes) := by
-  decide
+    (∀ f, f ∈ fontLevelFields → f.pkg ≠ "font" → f.container = false ∧ f.writes = []) ∧
+    (∀ r, r ∈ fontRoots → r ∈ fontLevelTypes) ∧ "font.SFNT" ∈ fontLevelTypes := by
+  have h : fontLevelFields.all (fun f => f.pkg == "font" || (!f.container && f.writes.isEmpty)) = true := by
+    decide +kernel
+  refine ⟨?_, by decide +kernel, by decide +kernel⟩
+  intro f hf hne
+  have := List.all_eq_true.mp h f hf
+  simp only [Bool.or_eq_true, beq_iff_eq, Bool.and_eq_true, Bool.not_eq_true', List.isEmpty_iff] at this
+  rcases this with h1 | h1
+  · exact absurd h1 hne
+  · exact h1
+
+/-- in the dependency tdewolff/font (same analysis, module cache): every site that mutates a container
+field of a type reachable from a loaded font is either inside a `once.Do` body (lazily built, then
+immutable) or in one of the two explicit mutator methods Merge / SetGlyphNames -/
+theorem font_dependency_container_writes :
+    ∀ f, f ∈ fontLevelFields → ∀ w, w ∈ f.writes →
+      w.sync = Sync.once "field" ∨ w.fn = "font.SFNT.Merge" ∨ w.fn = "font.SFNT.SetGlyphNames" := by
+  have h : fontLevelFields.all (fun f => f.writes.all (fun w =>
+      w.sync == Sync.once "field" || w.fn == "font.SFNT.Merge" || w.fn == "font.SFNT.SetGlyphNames")) = true := by
+    decide +kernel
+  intro f hf w hw
+  have := List.all_eq_true.mp (List.all_eq_true.mp h f hf) w hw
+  simp only [Bool.or_eq_true, beq_iff_eq] at this
+  rcases this with (h1 | h1) | h1
+  · exact Or.inl h1
+  · exact Or.inr (Or.inl h1)
+  · exact Or.inr (Or.inr h1)
+
+/-- the complete list of places where canvas hands a loaded font to a dependency method that writes
+into its receiver: the PDF writer (`CFF.SetGlyphNames(nil)`, `Subset`) and the SVG writer (`Subset`
+when SubsetFonts is set); and `Subset` contains exactly three alias copies `&(*sfntOld.T)` through
+which it writes into the receiver's Maxp, Head and Hhea tables. Whether the receiver at these call
+sites is the SHARED font or a private copy is not decidable from the syntax: it is judged on the
+running code (SharedFontState observations, race detector; known findings
+C20-race-font-subset-mutates-shared-font / C20-pdf-render-changes-shared-font). A new call site or a
+new alias copy changes this fact. -/
+theorem font_mutator_call_sites :
+    fontMutatorCalls.map (fun c => (c.fn, c.kind)) =
+      [("pdf.pdfWriter.writeFont", "sfnt.CFF.SetGlyphNames"), ("pdf.pdfWriter.writeFont", "sfnt.Subset"),
+       ("svg.SVG.writeFonts", "sfnt.Subset")] ∧
+    aliasCopies.map (fun c => (c.fn, c.kind)) =
+      [("font.SFNT.Subset", "&(*sfntOld.Maxp)"), ("font.SFNT.Subset", "&(*sfntOld.Head)"),
+       ("font.SFNT.Subset", "&(*sfntOld.Hhea)")] := by
+  exact ⟨by decide, by decide⟩
 
 /-! ## Pooled sweep-line objects -/
 
@@ -166,6 +208,103 @@ theorem pool_puts_in_release_tail :
     (∀ p, p ∈ putSites → "for 0 < len(*queue)" ∉ p.loops) ∧
     (∀ q, q ∈ ["canvas.boPointPool", "canvas.boNodePool", "canvas.boSquarePool"] → ∃ p, p ∈ putSites ∧ p.pool = q) := by
   decide
+
+/-! ## The pool protocol, verdicts computed in Lean over the raw extracted statement sequences -/
+
+/-- **Get protocol**: at every `pool.Get()` site of the current source, the statement sequence that
+follows never reads a field of the object before assigning it, never uses the object as a whole
+before all fields are assigned, and has assigned every field of the struct (as declared today) when
+the object is first published. A new struct field or a dropped assignment falsifies this. -/
+theorem get_protocol_table : ∀ g, g ∈ getSites → initOk g.fields g.steps [] = true := by
+  decide
+
+/-- consequently, for ANY meaning of the right-hand sides that depends on the object only through the
+fields the statements read, the object's state after the sequence is independent of what the pool
+held — at every extracted Get site -/
+theorem get_protocol_stateless {α : Type} (g : GetSite) (hg : g ∈ getSites)
+    (sem : InitStep → String → (String → α) → α) (hs : SemRespects g.fields sem) :
+    ∀ (stale stale' : String → α) f, f ∈ g.fields →
+      runInit (toOps g.fields sem g.steps) stale f = runInit (toOps g.fields sem g.steps) stale' f :=
+  initOk_stateless g.fields g.steps (get_protocol_table g hg) sem hs
+
+/-- the general statement behind it (all field lists, all statement sequences) -/
+theorem get_protocol_sound {α : Type} (fields : List String) (steps : List InitStep)
+    (h : initOk fields steps [] = true) (sem : InitStep → String → (String → α) → α)
+    (hs : SemRespects fields sem) (stale stale' : String → α) (f : String) (hf : f ∈ fields) :
+    runInit (toOps fields sem steps) stale f = runInit (toOps fields sem steps) stale' f :=
+  initOk_stateless fields steps h sem hs stale stale' f hf
+
+/-- the Lean-side computation of the assigned set agrees with the extractor's own scan -/
+theorem get_protocol_agrees_with_extractor :
+    ∀ g, g ∈ getSites → ∀ f, f ∈ g.fields →
+      (assignedBy g.fields g.steps []).contains f = g.assigned.contains f := by
+  decide
+
+/-- the verdict is not vacuous: newNode without `n.height = 1` is rejected, and so is a statement
+that reads a field before it is assigned -/
+example : initOk ["parent", "left", "right", "height", "SweepPoint"]
+    [⟨"", .set "parent", [], false⟩, ⟨"", .set "left", [], false⟩, ⟨"", .set "right", [], false⟩,
+     ⟨"", .set "SweepPoint", [], false⟩, ⟨"", .use, ["SweepPoint"], true⟩] [] = false := by decide
+example : initOk ["a", "b"] [⟨"", .set "a", ["b"], false⟩, ⟨"", .set "b", [], false⟩, ⟨"", .use, [], true⟩] [] = false := by
+  decide
+
+/-- soundness of the driver's verdict on a junk-pool observation: `ok` means the compiled struct has
+exactly the extracted fields, no field differed between the two junk fillings, and the model accepts
+the site -/
+theorem get_verdict_sound (g : GetSite) (typ : String) (obs : List (String × Bool))
+    (h : getObsVerdict g typ obs = .ok) :
+    g.typ = typ ∧ obs.map (·.1) = g.fields ∧ (∀ p, p ∈ obs → p.2 = false) ∧ initOk g.fields g.steps [] = true := by
+  unfold getObsVerdict at h
+  by_cases h1 : (g.typ != typ || obs.map (·.1) != g.fields) = true
+  · simp [h1] at h
+  · simp only [h1, Bool.false_eq_true, if_false] at h
+    simp only [Bool.or_eq_true, bne_iff_ne, ne_eq, not_or, Decidable.not_not] at h1
+    cases hf : obs.find? (·.2) with
+    | some p =>
+      rw [hf] at h
+      obtain ⟨f, b⟩ := p
+      by_cases hi : initOk g.fields g.steps [] = true <;> simp [hi] at h
+    | none =>
+      rw [hf] at h
+      by_cases hi : initOk g.fields g.steps [] = true
+      · refine ⟨h1.1, h1.2, ?_, hi⟩
+        intro p hp
+        have := List.find?_eq_none.mp hf p hp
+        simpa using this
+      · simp [hi] at h
+
+/-- **Put protocol**: in every function of the current source that returns objects to a pool, no
+statement other than Put-only statements (and the final return) follows the first Put-only
+statement -/
+theorem put_protocol_table :
+    (∀ p, p ∈ putFuncs → tailOk (p.stmts.map (·.2)) = true) ∧
+    (∀ s, s ∈ putSites → ∃ p, p ∈ putFuncs ∧ p.fn = s.fn) := by
+  decide
+
+/-- consequently every event sequence such a function body can produce (any number of loop
+iterations, any objects) has, after its first `put`, only puts and guards of release statements: no
+object is fetched or used after anything was released. (Guards — `if !event.left` — read the object
+that is about to be put; that they never read an object put by an EARLIER iteration is not
+derivable from the syntax and is covered by the race-detector runs only.) -/
+theorem put_protocol_safe (p : PutFunc) (hp : p ∈ putFuncs) (tr : List PEv)
+    (hg : Gen (p.stmts.map (·.2)) tr) (a b : List PEv) (id : Nat) (h : tr = a ++ PEv.put id :: b) :
+    ∀ e, e ∈ b → e.isRelease = true :=
+  tailOk_sound _ tr (put_protocol_table.1 p hp) hg a b id h
+
+/-- general form -/
+theorem put_protocol_sound (ks : List StmtKind) (tr : List PEv) (hk : tailOk ks = true) (hg : Gen ks tr)
+    (a b : List PEv) (id : Nat) (h : tr = a ++ PEv.put id :: b) : ∀ e, e ∈ b → e.isRelease = true :=
+  tailOk_sound ks tr hk hg a b id h
+
+/-- non-vacuity: a body `other; release` produces real traces with uses before and puts after, and
+the early-release shape `release; other` is rejected and does produce a use after a put -/
+example : Gen [.other, .release] [.get 1, .use 1, .guard 1, .put 1] :=
+  Gen.other (seg := [.get 1, .use 1]) (by intro e he; simp at he; rcases he with rfl | rfl <;> exact ⟨rfl, rfl⟩)
+    (Gen.release (seg := [.guard 1, .put 1]) (by intro e he; simp at he; rcases he with rfl | rfl <;> rfl) Gen.nil)
+example : tailOk [.release, .other] = false := by decide
+example : Gen [.release, .other] [.put 1, .use 1] :=
+  Gen.release (seg := [.put 1]) (by intro e he; simp at he; subst he; rfl)
+    (Gen.other (seg := [.use 1]) (by intro e he; simp at he; subst he; exact ⟨rfl, rfl⟩) Gen.nil)
 
 /-- the ownership hypothesis of `lockset_drf` (fields of a pooled object are accessed only between
 its Get and its Put, `Prot.guarded (Tok.obj p v)`) matters: in the MODEL, an object that is still
